@@ -188,6 +188,15 @@ class Trace:
                                      machine=m, task=self.alloc_live[m][0]['task'])
             if len(live) >= 2:
                 cnt['c09_two_live'] += 1
+            if not getattr(self, 'has_adversary', False):
+                for o, ms in p['idle'].items():
+                    rec = self.owner.get(o)
+                    if rec is None:
+                        continue
+                    extra = [m for m in ms if m not in rec['machines']]
+                    if extra:
+                        self.violate('C09', 'reservation_grew', owner=str(o), machines=extra,
+                                     reserved=list(rec['machines']))
         # ---- C07: buffer conservation
         bs = probe.buffer_state(sim.buffer)
         hu = bs['hot_total'] - bs['hot_free']
@@ -205,6 +214,9 @@ class Trace:
             self.violate('C07', 'cold_used_vs_resident', used=cu, resident=sc,
                          per_obs=dict(self.C))
         cnt['c07_evals'] += 1
+        frac = hu / bs['hot_total'] if bs['hot_total'] else 0.0
+        if frac > getattr(self, 'max_hot_frac', 0.0):
+            self.max_hot_frac = frac
         if sum(1 for v in self.H.values() if v > 0) >= 2:
             cnt['c07_two_resident'] += 1
         # ---- C08: arrays and ingest limit
@@ -571,6 +583,10 @@ def _ingest_stream_leave(tr, rec, buf, ret, exc):
 def _move_enter(direction):
     def f(tr, rec, buf, args):
         bs = probe.buffer_state(buf)
+        thr = getattr(buf, 'threshold', 0.6)
+        used = (bs['hot_total'] - bs['hot_free']) / bs['hot_total'] if bs['hot_total'] else 0
+        if direction == 'h2c' and used <= 0.6 + 1e-12:
+            tr.tiering_without_exceeding = True
         rec.update(direction=direction, t_enter=tr.now(), seq_enter=tr.seq, steps=[],
                    hot_free0=bs['hot_free'], cold_free0=bs['cold_free'],
                    hot_rate=bs['hot_rate'], cold_rate=bs['cold_rate'],
@@ -672,6 +688,11 @@ def _begin_after(tr, tel, args, ctx, ret, exc):
         tr.violate('C08', 'admitted_without_' + c, obs=name, snapshot=dict(last),
                    ingest_demand=sp['ingest_demand'], volume=vol,
                    same_step_admissions=len(tr.pending_prov) - 1)
+        if c in ('hot_room', 'cold_room'):
+            # C07: admission only if the whole volume fits
+            tr.violate('C07', 'admitted_without_' + c, obs=name, volume=vol,
+                       hot_free=last['hot_free'], cold_free=last['cold_free'])
+    tr.cnt['c07_admission_evals'] += 1
 
 
 def _finish_after(tr, tel, args, ctx, ret, exc):
@@ -746,6 +767,10 @@ def _remove_after(tr, hot, args, ctx, ret, exc):
     else:
         if abs(delta) > 1e-9:
             tr.violate('C07', 'refused_remove_changed_space', obs=name, delta=delta)
+        if tr.H[name] > 1e-9 and tr.obs[name]['freed'] is None:
+            # remove() is only called when the observation's workflow has completed
+            tr.violate('C07', 'workflow_finished_but_data_not_freed', obs=name,
+                       resident=tr.H[name])
 
 
 def _mark_finished_after(tr, buf, args, ctx, ret, exc):
